@@ -1,4 +1,4 @@
-\* 1 peer, wire side: 5 API operations, queue capacity 1, 2 drops, gate, held stream open, outbound reset, disconnect
+\* 1 peer, wire side: 5 API operations incl. repeated cancels, queue capacity 1, 2 drops, gate, held stream open, outbound reset, disconnect
 SPECIFICATION Spec
 CONSTANTS
   p1 = p1
@@ -23,11 +23,15 @@ CONSTANTS
   ClosedOrdered = TRUE
   DupClears = TRUE
   MaxDup = 0
+  AllowRepeat = TRUE
+  CancelIdempotent = TRUE
+  RelayCancelIdempotent = TRUE
 INVARIANT TypeOK
 INVARIANT P_C05_WireTruth
 INVARIANT P_C05_ListPeers
 INVARIANT P_C05_NoSpuriousAnnounce
 INVARIANT P_C05_Settles
+INVARIANT HandlesMatch
 CONSTRAINT Bound
 SYMMETRY Sym
 CHECK_DEADLOCK FALSE
